@@ -218,6 +218,10 @@ func ruleCursor(w *World, r *Report, pkg *ssa.Package, tag string) {
 	_, pCl := storesTo(cellP)
 	_, bCl := storesTo(cellB)
 	_, aCl := storesTo(cellA)
+	if len(pCl) > 0 || len(bCl) > 0 {
+		decline("the path cursor or the second list's cursor is advanced inside a closure (the walk's steps are not in the walk function itself)")
+		return
+	}
 	// closures that (transitively) store a cursor / load P
 	closures := []*ssa.Function{}
 	withClosures(fn, func(g *ssa.Function) {
